@@ -20,6 +20,7 @@
 #include <ksi/policy.h>
 #include <ksi/verification.h>
 #include <ksi/signature_builder.h>
+#include <ksi/blocksigner.h>
 #include <ksi/impl/net_async_impl.h>
 #include <sys/socket.h>
 #include <sys/ioctl.h>
@@ -161,7 +162,8 @@ static KSI_AsyncClient *tc; static int owned[MAXH]; /* held[i] is owned by the c
 
 static void reset_net(void) { int k; interactive = 0; for (k = 0; k < NEP; k++) { free(eps[k].s2c); memset(&eps[k], 0, sizeof(Ep)); } cur_ep = pending_ep = 0; vclock = 1600000000; }
 static KSI_Signature *slots[32];
-static void free_all(void) { int i; for (i = 0; i < 32; i++) { KSI_Signature_free(slots[i]); slots[i] = NULL; } nsvc = 0; memset(svc, 0, sizeof(svc)); for (i = 0; i < MAXH; i++) { if (owned[i]) KSI_AsyncHandle_free(held[i]); held[i] = NULL; owned[i] = 0; } KSI_AsyncService_free(as); as = NULL; KSI_AsyncClient_free(tc); tc = NULL; KSI_CTX_free(ctx); ctx = NULL; }
+static void bs_free_all(void);
+static void free_all(void) { int i; bs_free_all(); for (i = 0; i < 32; i++) { KSI_Signature_free(slots[i]); slots[i] = NULL; } nsvc = 0; memset(svc, 0, sizeof(svc)); for (i = 0; i < MAXH; i++) { if (owned[i]) KSI_AsyncHandle_free(held[i]); held[i] = NULL; owned[i] = 0; } KSI_AsyncService_free(as); as = NULL; KSI_AsyncClient_free(tc); tc = NULL; KSI_CTX_free(ctx); ctx = NULL; }
 
 /* sub-service calls made by the HA service (net_ha.o -> net_async.o) are interposed too: they are the linearization points of C15 */
 static int svc_index(KSI_AsyncService *s) { int i; if (s == as) return -1; for (i = 0; i < nsvc; i++) if (svc[i] == s) return i; if (nsvc < 8) { svc[nsvc] = s; return nsvc++; } return 99; }
@@ -221,6 +223,8 @@ static void print_handle(KSI_AsyncHandle *h) {
 
 static char cred_user[1024] = "anon", cred_key[70000] = "anon";
 static FILE *devnull;
+static KSI_BlockSigner *bs; static KSI_BlockSignerHandle *bsh[64]; static int nbsh;
+static void bs_free_all(void) { int k; for (k = 0; k < nbsh; k++) KSI_BlockSignerHandle_free(bsh[k]); nbsh = 0; KSI_BlockSigner_free(bs); bs = NULL; }
 
 int main(void) {
 	char *line = NULL; size_t cap = 0; char **tok = H_MALLOC(sizeof(char *) * 5000);
@@ -273,6 +277,34 @@ int main(void) {
 				KSI_VerificationContext_clean(&vc);
 			}
 			KSI_free(before); KSI_free(after); KSI_PolicyVerificationResult_free(result); KSI_DataHash_free(doc); KSI_PublicationData_free(up); KSI_PublicationsFile_free(pf); if (!borrowed) KSI_Signature_free(sig);
+		} else if (!strcmp(tok[0], "BSNEW")) {
+			/* block signer (C16): BSNEW <alg> <prevLeafHex|-> <ivHex|-> | BSADD <hashHex> <lvl> <clientIdHex|-> | BSCLOSE | BSRESET | BSSIG <i> | BSPREV */
+			int rc, k; KSI_DataHash *prev = NULL; KSI_OctetString *iv = NULL;
+			for (k = 0; k < nbsh; k++) KSI_BlockSignerHandle_free(bsh[k]); nbsh = 0; KSI_BlockSigner_free(bs); bs = NULL;
+			if (strcmp(tok[2], "-")) { size_t l; unsigned char *b = hx_dec(tok[2], &l); KSI_DataHash_fromImprint(ctx, b, l, &prev); free(b); b = hx_dec(tok[3], &l); KSI_OctetString_new(ctx, b, l, &iv); free(b); }
+			rc = KSI_BlockSigner_new(ctx, (KSI_HashAlgorithm)atoi(tok[1]), prev, iv, &bs);
+			KSI_DataHash_free(prev); KSI_OctetString_free(iv);
+			printf("R bsnew rc=0x%x\n", rc);
+		} else if (!strcmp(tok[0], "BSADD")) {
+			size_t l; unsigned char *b = hx_dec(tok[1], &l); KSI_DataHash *h = NULL; KSI_MetaData *md = NULL; int rc;
+			rc = KSI_DataHash_fromImprint(ctx, b, l, &h); free(b);
+			if (rc == KSI_OK && strcmp(tok[3], "-")) { KSI_Utf8String *cid = NULL; b = hx_dec(tok[3], &l); rc = KSI_MetaData_new(ctx, &md);
+				if (rc == KSI_OK) rc = KSI_Utf8String_new(ctx, (char *)b, l, &cid); if (rc == KSI_OK) rc = KSI_MetaData_setClientId(md, cid); KSI_Utf8String_free(cid); free(b); }
+			if (rc == KSI_OK) { bsh[nbsh] = NULL; rc = KSI_BlockSigner_addLeaf(bs, h, atoi(tok[2]), md, &bsh[nbsh]); if (rc == KSI_OK) nbsh++; }
+			KSI_MetaData_free(md); KSI_DataHash_free(h);
+			printf("R bsadd rc=0x%x n=%d\n", rc, nbsh);
+		} else if (!strcmp(tok[0], "BSCLOSE")) {
+			int rc = KSI_BlockSigner_closeAndSign(bs); printf("R bsclose rc=0x%x\n", rc);
+		} else if (!strcmp(tok[0], "BSRESET")) {
+			int rc, k; for (k = 0; k < nbsh; k++) KSI_BlockSignerHandle_free(bsh[k]); nbsh = 0;
+			rc = KSI_BlockSigner_reset(bs); printf("R bsreset rc=0x%x\n", rc);
+		} else if (!strcmp(tok[0], "BSSIG")) {
+			KSI_Signature *sg = NULL; int rc = KSI_BlockSignerHandle_getSignature(bsh[atoi(tok[1])], &sg); unsigned char *ser = NULL; size_t sl = 0;
+			printf("R bssig rc=0x%x", rc); if (rc == KSI_OK && KSI_Signature_serialize(sg, &ser, &sl) == KSI_OK) { printf(" sig="); hx_print(ser, sl); } printf("\n");
+			KSI_free(ser); KSI_Signature_free(sg);
+		} else if (!strcmp(tok[0], "BSPREV")) {
+			KSI_DataHash *p = NULL; int rc = KSI_BlockSigner_getPrevLeaf(bs, &p); printf("R bsprev rc=0x%x prev=", rc);
+			if (rc == KSI_OK && p != NULL) { const unsigned char *d; size_t l; KSI_DataHash_getImprint(p, &d, &l); hx_print(d, l); } else printf("-"); printf("\n"); KSI_DataHash_free(p);
 		} else if (!strcmp(tok[0], "OPARSE")) {
 			/* object slots (C11): OPARSE <slot> <sigHex> | OCLONE <dst> <src> | OSER <slot> | OFREE <slot> | OEXTEND <dst> <src> <head|time|@slotWithPubRec> | OLEVEL <dst> <src> <level> | NOISE hash <hex> | NOISE log <level> */
 			int k = atoi(tok[1]); size_t l; unsigned char *b = hx_dec(tok[2], &l); int rc;
